@@ -87,3 +87,92 @@ def budget_done(ex, st, budget, tracker):
     cnt = ex.fget(st, ev, "count", INT)
     best = ex.fget(st, tracker, "best_individual", ex.field_kind(tracker.kind.target.cls, "best_individual"))
     return V(BOOL, f(budget.term, cnt.term, best.term))
+
+
+# ---- grammar distance: DEFINED by the equations of the shallowest derivable program ---------------------------
+def _T():
+    from pyvc.kinds import Opaque
+
+    return Opaque("Type")
+
+
+def _pure(name, *sorts):
+    return z3.Function("pure_" + name, *sorts)
+
+
+def _gdist_fn(ex, st):
+    T = _T().sort()
+    B = z3.BoolSort()
+    f = z3.Function("gdist", I, T, I)
+    if ("axiom", "gdist") in ex.__dict__.setdefault("_axiom_keys", set()):
+        return f
+    ex._axiom_keys.add(("axiom", "gdist"))
+    ann, lst, uni, gen = (_pure(n, T, B) for n in ("is_annotated", "is_generic_list", "is_union", "is_generic"))
+    params = _pure("get_generic_parameters", T, I)
+    g = z3.Int("gd_g")
+    ty = z3.Const("gd_ty", T)
+    k = z3.Int("gd_k")
+    # entry-heap reads (the grammar is read-only in every unit that uses gdist: checked by the frame obligations)
+    ed_arr = ex.H.fld_arr(st, "expansion_depthing", B)
+    dtt_arr = ex.H.fld_arr(st, "distanceToTerminal", I)
+    H0 = ex.H.base
+    ed = lambda gg: z3.If(H0[ex.H.n_fld("expansion_depthing", B)][gg], 1, 0)
+    tbl = lambda gg, t: ex.H.map_arr(st, T, I) is not None and H0[ex.H.n_map(T, I)][H0[ex.H.n_fld("distanceToTerminal", I)][gg]][t]
+    ln = ex.H.len_arr(st)
+    el = ex.H.el_arr(st, T)
+    L0, E0 = H0["len"], H0[ex.H.n_el(T)]
+    P = lambda t: params(t)
+    n_of = lambda t: L0[P(t)]
+    at = lambda t, kk: E0[P(t)][kk]
+    is_leaf = z3.And(z3.Not(ann(ty)), z3.Not(lst(ty)), z3.Not(uni(ty)), z3.Not(gen(ty)))
+    ax = ex.axioms
+    ax.append(z3.ForAll([g, ty], z3.Implies(ann(ty), f(g, ty) == f(g, at(ty, 0))), patterns=[f(g, ty)]))
+    ax.append(z3.ForAll([g, ty], z3.Implies(z3.And(z3.Not(ann(ty)), lst(ty)), f(g, ty) == ed(g) + f(g, at(ty, 0))), patterns=[f(g, ty)]))
+    # union: ed + the minimum over the alternatives (bounds every alternative, attained by one)
+    wmin = z3.Function("gdist_argmin", I, T, I)
+    wmax = z3.Function("gdist_argmax", I, T, I)
+    isu = z3.And(z3.Not(ann(ty)), z3.Not(lst(ty)), uni(ty))
+    ax.append(z3.ForAll([g, ty, k], z3.Implies(z3.And(isu, 0 <= k, k < n_of(ty)), f(g, ty) <= ed(g) + f(g, at(ty, k))), patterns=[z3.MultiPattern(f(g, ty), at(ty, k))]))
+    ax.append(z3.ForAll([g, ty], z3.Implies(isu, z3.And(0 <= wmin(g, ty), wmin(g, ty) < n_of(ty), f(g, ty) == ed(g) + f(g, at(ty, wmin(g, ty))))), patterns=[f(g, ty)]))
+    isg = z3.And(z3.Not(ann(ty)), z3.Not(lst(ty)), z3.Not(uni(ty)), gen(ty))
+    ax.append(z3.ForAll([g, ty, k], z3.Implies(z3.And(isg, 0 <= k, k < n_of(ty)), f(g, ty) >= ed(g) + f(g, at(ty, k))), patterns=[z3.MultiPattern(f(g, ty), at(ty, k))]))
+    ax.append(z3.ForAll([g, ty], z3.Implies(isg, z3.And(0 <= wmax(g, ty), wmax(g, ty) < n_of(ty), f(g, ty) == ed(g) + f(g, at(ty, wmax(g, ty))))), patterns=[f(g, ty)]))
+    ax.append(z3.ForAll([g, ty], z3.Implies(is_leaf, f(g, ty) == tbl(g, ty)), patterns=[f(g, ty)]))
+    return f
+
+
+@specfunc("gdist")
+def gdist(ex, st, g, ty):
+    """minimum depth of a program derivable from `ty` in grammar g, as the equations of the property define it"""
+    f = _gdist_fn(ex, st)
+    t = ex.as_type(ty) or ty
+    return V(INT, f(g.term, t.term))
+
+
+@specfunc("gdist_defined")
+def gdist_defined(ex, st, g, ty):
+    """every leaf symbol reachable through the wrappers of `ty` has a table entry, and wrapper types carry the
+    parameters their form needs (the shape invariant `typing` guarantees: Annotated/list have >= 1 parameter,
+    unions and tuples >= 1)"""
+    T = _T().sort()
+    B = z3.BoolSort()
+    d = z3.Function("gdist_defined", I, T, B)
+    if ("axiom", "gdist_defined") not in ex.__dict__.setdefault("_axiom_keys", set()):
+        ex._axiom_keys.add(("axiom", "gdist_defined"))
+        ann, lst, uni, gen = (_pure(n, T, B) for n in ("is_annotated", "is_generic_list", "is_union", "is_generic"))
+        params = _pure("get_generic_parameters", T, I)
+        H0 = ex.H.base
+        ex.H.len_arr(st), ex.H.el_arr(st, T), ex.H.fld_arr(st, "distanceToTerminal", I), ex.H.dom_arr(st, T)
+        L0, E0 = H0["len"], H0[ex.H.n_el(T)]
+        gg = z3.Int("gdd_g")
+        ty_ = z3.Const("gdd_ty", T)
+        k = z3.Int("gdd_k")
+        n_of = L0[params(ty_)]
+        at = lambda kk: E0[params(ty_)][kk]
+        wrapper = z3.Or(ann(ty_), lst(ty_), uni(ty_), gen(ty_))
+        dom = H0[ex.H.n_dom(T)][H0[ex.H.n_fld("distanceToTerminal", I)][gg]][ty_]
+        ex.axioms.append(z3.ForAll([gg, ty_], z3.Implies(z3.And(d(gg, ty_), wrapper), z3.And(n_of >= 1, params(ty_) >= 1, params(ty_) < ex.top0)), patterns=[d(gg, ty_)]))
+        ex.axioms.append(z3.ForAll([gg, ty_, k], z3.Implies(z3.And(d(gg, ty_), wrapper, 0 <= k, k < n_of), d(gg, at(k))), patterns=[z3.MultiPattern(d(gg, ty_), at(k))]))
+        ex.axioms.append(z3.ForAll([gg, ty_], z3.Implies(z3.And(d(gg, ty_), z3.Not(wrapper)), dom), patterns=[d(gg, ty_)]))
+    t = ex.as_type(ty) or ty
+    return V(BOOL, d(g.term, t.term))
